@@ -334,7 +334,8 @@ func (s *Staking) distributeRewards(ctx *context) (map[common.Address]struct{}, 
 
 		// check if need to settle
 		if val.RewardsLastSettled < currRound && val.RewardsLastSettled+forceSettleGap <= currRound {
-			settleValidatorRewards(ctx, val, currRound)
+			// settle the record that was just stored (it carries the rewards distributed above), not the stale `val`
+			settleValidatorRewards(ctx, newVal, currRound)
 			settled[val.MainAddress()] = struct{}{}
 		}
 	}
